@@ -406,7 +406,21 @@ def run(ctx):
     prog = ctx.prog("dfs", "N")
     return [rule_watford_guard(prog), rule_decision_table(prog), rule_probe_reads(prog), rule_opus_selfcheck(prog),
             rule_sides_from_hdfs_only(prog), c01.rule_opus_catalogue_slot(prog, rule_id="R-C13-6"),
-            rule_format_of_own_surface(prog)]
+            rule_format_of_own_surface(prog), _shared_validator_rule(prog), _shared_table_walk(prog)]
+
+
+def _shared_table_walk(prog):
+    from . import c01
+    r = c01.rule_degenerate_continue(prog)
+    r.rule = "R-C13-9"       # every entry of the Opus volume table is examined and validated
+    return r
+
+
+def _shared_validator_rule(prog):
+    from . import c01
+    r = c01.rule_empty_files_do_not_overlap(prog)
+    r.rule = "R-C13-8"       # a well-formed catalogue is not refused (which would turn the disc into another variant)
+    return r
 
 
 SELFTESTS = [
